@@ -5,13 +5,16 @@ Model/Display.lean — discrete / algebraic parts of the display pipeline (C19),
   indices are displayed — `getRotPosInds`;
 * `make_Cuboid`, `make_Tetrahedron`, `make_Prism`, `make_Pyramid` (magpylib/_src/display/traces_base.py):
   vertex tables (Cuboid, Tetrahedron) and the `i, j, k` triangle index arrays (all four);
-* `check_chirality` (magpylib/_src/fields/field_BH_tetrahedron.py) as used by `make_Tetrahedron`.
+* `check_chirality` (magpylib/_src/fields/field_BH_tetrahedron.py) as used by `make_Tetrahedron`;
+* `place_and_orient_model3d` (traces_utility.py): `place`, `placeModel` (any scalar carrier; the driver runs it at IEEE double
+  on dyadic data, where every operation is exact).
 
 Mathlib-free and computable (linked into the compiled driver, family `disp`).  Coordinates are
 integers; the Cuboid vertices are returned DOUBLED (the code multiplies by 0.5) so that everything
 stays in ℤ.
 -/
 import MagpyVerif.Model.Mesh
+import MagpyVerif.Model.Basic
 namespace MagpyVerif.Display
 open MagpyVerif.Mesh (Face)
 
@@ -204,5 +207,121 @@ def pyramidTriangles (N : Nat) : Except Err (List Face) :=
   match pyramidIJK N with
   | .error e => .error e
   | .ok (i, j, k) => .ok (zip3 i j k)
+
+/-! ## `place_and_orient_model3d` (magpylib/_src/display/traces_utility.py)
+
+A model trace is a dict (`model_kwargs`, insertion-ordered) and/or a tuple of positional arguments (`model_args`);
+three of its entries are the coordinate arrays, named by `coordsargs` (`{"x": "x", …}` by default, `{"x": "args[0]", …}`
+by default when `model_args` is non-empty).  The code: early return `{**model_kwargs, **kwargs}` (nothing transformed,
+`scale` NOT looked at) iff `orientation is None and position is None and length_factor == 1`; otherwise the three
+coordinate arrays are fetched (x, y, z in this order: a missing key raises ValueError, a missing positional argument
+IndexError), stacked (different shapes: numpy's ValueError), every vertex is mapped to
+`(orientation.apply(v) * scale + position) * length_factor` (no rotation for `orientation=None`, `position=None` is the
+origin), the arrays are written back under the same keys / argument indices (shape kept), every other entry is left
+as it is, and `**kwargs` is merged last.  Returned: the new dict, and on request the new args (a list; in the early
+return the caller's object, possibly None) and the resolved `coordsargs` (the caller's, possibly None, in the early
+return).  Well-formed input assumed: the three coordinate names are all dict keys or all `args[i]`, and name arrays. -/
+section placement
+
+/-- `(orientation.apply(v) * scale + position) * length_factor` -/
+def place {G V K : Type} [SMul G V] [SMul K V] [Add V] (R : G) (p : V) (scale f : K) (v : V) : V :=
+  f • (scale • (R • v) + p)
+
+/-- the same with the optional arguments as the code treats them -/
+def placeOpt {G V K : Type} [SMul G V] [SMul K V] [Add V] [Zero V] (R : Option G) (p : Option V) (scale f : K)
+    (v : V) : V :=
+  f • (scale • (match R with | some r => r • v | none => v) + p.getD 0)
+
+/-- a value in a trace dict / argument tuple: an array (shape, row-major data) or anything else -/
+inductive TVal (α : Type) where
+  | arr (shape : List Nat) (data : List α)
+  | other (tag : Int)
+  deriving Repr, BEq, DecidableEq
+
+/-- one entry of `coordsargs`: a dict key or `"args[i]"` -/
+inductive CKey where
+  | key (k : String)
+  | arg (i : Nat)
+  deriving Repr, BEq, DecidableEq
+
+/-- `d[k] = v` on an insertion-ordered dict -/
+def dictSet {β : Type} (d : List (String × β)) (k : String) (v : β) : List (String × β) :=
+  if d.any (·.1 == k) then d.map (fun kv => if kv.1 == k then (k, v) else kv) else d ++ [(k, v)]
+
+/-- `{**d, **u}` -/
+def dictUpdate {β : Type} (d u : List (String × β)) : List (String × β) :=
+  u.foldl (fun d kv => dictSet d kv.1 kv.2) d
+
+structure PlaceIn (α : Type) where
+  kwargs : List (String × TVal α)
+  args : Option (List (TVal α))
+  orientation : Option (M3 α)
+  position : Option (V3 α)
+  coordsargs : Option (CKey × CKey × CKey)
+  scale : α
+  lengthFactor : α
+  /-- `**kwargs` -/
+  extra : List (String × TVal α)
+
+structure PlaceOut (α : Type) where
+  kwargs : List (String × TVal α)
+  args : Option (List (TVal α))
+  coordsargs : Option (CKey × CKey × CKey)
+
+variable {α : Type}
+
+scoped instance [Mul α] : SMul α (V3 α) := ⟨V3.smul⟩
+
+/-- `get_vertices_from_model`: the resolved coordsargs -/
+def resolveCoords (a : PlaceIn α) : CKey × CKey × CKey :=
+  match a.coordsargs with
+  | some c => c
+  | none => if (a.args.getD []).isEmpty then (.key "x", .key "y", .key "z") else (.arg 0, .arg 1, .arg 2)
+
+def fetchCoord (a : PlaceIn α) : CKey → Except Err (TVal α)
+  | .arg i => match (a.args.getD [])[i]? with
+    | some v => .ok v
+    | none => .error .indexError
+  | .key k => match a.kwargs.lookup k with
+    | some v => .ok v
+    | none => .error .valueError
+
+/-- `list[i] = v` -/
+def listSet {β : Type} (l : List β) (i : Nat) (v : β) : List β := l.set i v
+
+def placeModel [Add α] [Mul α] [OfNat α 0] [OfNat α 1] [BEq α] (a : PlaceIn α) : Except Err (PlaceOut α) :=
+  if a.orientation.isNone && a.position.isNone && a.lengthFactor == 1 then
+    .ok { kwargs := dictUpdate a.kwargs a.extra, args := a.args, coordsargs := a.coordsargs }
+  else
+    let ca := resolveCoords a
+    match fetchCoord a ca.1 with
+    | .error e => .error e
+    | .ok vx =>
+    match fetchCoord a ca.2.1 with
+    | .error e => .error e
+    | .ok vy =>
+    match fetchCoord a ca.2.2 with
+    | .error e => .error e
+    | .ok vz =>
+    match vx, vy, vz with
+    | .arr sx dx, .arr sy dy, .arr sz dz =>
+      if sx != sy || sy != sz then .error .valueError else
+      let pts : List (V3 α) := (dx.zip (dy.zip dz)).map fun (x, y, z) =>
+        placeOpt a.orientation a.position a.scale a.lengthFactor (⟨x, y, z⟩ : V3 α)
+      let nx := TVal.arr sx (pts.map (·.x))
+      let ny := TVal.arr sx (pts.map (·.y))
+      let nz := TVal.arr sx (pts.map (·.z))
+      match ca with
+      | (.arg i, .arg j, .arg k) =>
+        .ok { kwargs := dictUpdate a.kwargs a.extra,
+              args := some (listSet (listSet (listSet (a.args.getD []) i nx) j ny) k nz),
+              coordsargs := some ca }
+      | (.key i, .key j, .key k) =>
+        .ok { kwargs := dictUpdate (dictUpdate a.kwargs (dictSet (dictSet (dictSet [] i nx) j ny) k nz)) a.extra,
+              args := some (a.args.getD []),
+              coordsargs := some ca }
+      | _ => .error .indexError
+    | _, _, _ => .error .valueError
+end placement
 
 end MagpyVerif.Display
